@@ -159,7 +159,7 @@ func (t ArrayItemTuple) MustGet(name string) Value {
 // With returns a Tuple with all name/Value pairs in t (except the one for the
 // given name, if present) with the addition of the given name/Value pair.
 func (t ArrayItemTuple) With(name string, value Value) Tuple {
-	return maybeNewArrayItemTupleFromTuple(t.asGenericTuple().With(name, value))
+	return t.asGenericTuple().With(name, value)
 }
 
 // Without returns a Tuple with all name/Value pairs in t exception the one of
